@@ -386,8 +386,12 @@ class Check:
         ev = {"property_id": self.prop, "tier": self.tier, "seed": self.seed, "level": level,
               "coverage": self.cov, "assumptions": self.assumptions,
               "wall_s": round(time.time() - self.t0, 2), "violations": len(self.violations)}
-        os.makedirs(os.path.join(VERIF, "evidence"), exist_ok=True)
-        json.dump(ev, open(os.path.join(VERIF, "evidence", self.prop + ".json"), "w"), indent=1)
+        # evidence describes runs against /repo only; runs against another tree (VERIF_REPO, used for
+        # seeded changes and mutations) leave /verif/evidence alone
+        evdir = os.path.join(VERIF, "evidence") if "VERIF_REPO" not in os.environ else \
+            os.path.join(os.environ.get("TMPDIR", "/tmp"), "verif_evidence_other_tree")
+        os.makedirs(evdir, exist_ok=True)
+        json.dump(ev, open(os.path.join(evdir, self.prop + ".json"), "w"), indent=1)
         self.scratch.cleanup()
         for f in self.known_hits:
             print("KNOWN-FINDING: property=%s %s" % (self.prop, f["what"]))
